@@ -199,6 +199,9 @@ func (r *R) Dur() time.Duration {
 	return time.Duration(r.Int64())
 }
 
+// ExtraLevels joins the pool of Level VALUES once a workload has registered severities of its own.
+var ExtraLevels []slog.Level
+
 var levelPool = []slog.Level{slog.PanicLevel, slog.ErrorLevel, slog.WarnLevel, slog.InfoLevel, slog.DebugLevel, slog.TraceLevel, slog.OffLevel, slog.AlwaysLevel, slog.OKLevel, slog.FailLevel,
 	slog.Level(17), slog.MaxLevel, slog.Level(-3)} // and values nobody registered
 
@@ -302,6 +305,9 @@ func (r *R) Scalar(kind string, o Options) V {
 		v.Go = TextM{v.Text}
 	case "level":
 		l := Pick(r, levelPool)
+		if len(ExtraLevels) > 0 && r.P(35) {
+			l = Pick(r, ExtraLevels) // severities the workload registered under titles of its own (quotes, escape bytes, line breaks ...)
+		}
 		v.Text = l.String()
 		v.Go = l
 	case "nil":
